@@ -28,5 +28,6 @@ if git diff --name-only | grep -q '^util/'; then
   go test -vet=off -count=1 ./util/... > /tmp/seedchk/$NAME.util.log 2>&1; echo "util suite rc=$? ($(grep -c '^ok' /tmp/seedchk/$NAME.util.log) ok, $(grep -c '^FAIL' /tmp/seedchk/$NAME.util.log) FAIL lines)"
 fi
 rm -f $W/$DEMODIR/zz_demo_test.go 2>/dev/null
+[ -n "${SKIP_CHECK:-}" ] && exit 0
 mkdir -p /tmp/seedchk/replays; cd /verif && VERIF_REPLAY_DIR=/tmp/seedchk/replays VERIF_REPO=$W ./check $PROP --no-evidence "$@" 2>&1 | tail -8 | cut -c1-1200
 echo "check rc=${PIPESTATUS[0]}"
